@@ -96,7 +96,7 @@ ClipReqI(c, n, t0, rows, d) ==
 (* longer than the window), window <= source length, on exact units.       *)
 (***************************************************************************)
 MustProduceN(c, srcOk, srcN) ==
-    CASE c.kind \in {"rec", "clip"} -> TRUE
+    CASE c.kind \in {"rec", "clip", "long", "longclip"} -> TRUE
       [] c.kind = "resamp" -> srcOk /\ srcN >= 2 /\ (srcN * c.target >= 2 * Sr(c) \/ (ExactCo(c) /\ srcN * c.target >= Sr(c)))
       [] c.kind = "spec"   -> /\ srcOk /\ Exact(c)
                               /\ c.h * Sr(c) >= c.tden /\ c.w * Sr(c) >= c.tden
@@ -143,6 +143,36 @@ LNearRat(v, p, q) ==
                         \/ m[2] = p - 1 /\ m[3] = B16 - 1 /\ m[4] = B16 - 1
 \* "time v is p/q": exact on exact units, within 2.4e-10 of a sample otherwise
 TimeIs(v, p, q, exact) == IF exact THEN LExactRat(v, p, q) ELSE LNearRat(v, p, q)
+
+(***************************************************************************)
+(* Long arrays (kinds "long" = load_recording, "longclip" = load_clip of a *)
+(* file of more than 2^23 frames, one channel, frame k holding             *)
+(* k % 32749 + 1).  Their axes do not fit the limb encoding coordinate by  *)
+(* coordinate; the binder ships reductions r.red instead (all generic):    *)
+(*   dtype of the coordinate, n, nonincr = number of consecutive pairs     *)
+(*   with c[i+1] <= c[i], c0 / last / step as limbs, maxdev = max_i        *)
+(*   |c_i - (c_0 + i*step)| (exact at the maximising index), and samples   *)
+(*   <<i, c_i, value of frame i>> at a handful of indices.                 *)
+(* The axis clauses are stated on the reductions.  Doubles near 30 s cannot*)
+(* hold a sample instant to 2^-32 sample, and np.arange accumulates one    *)
+(* rounding of the step per index, so sampled instants of long arrays are  *)
+(* judged to 2^-8 sample (float32 coordinates are off by tenths there).    *)
+(***************************************************************************)
+LongKinds == {"long", "longclip"}
+LongVal(k, N) == IF k < N THEN (k % 32749) + 1 ELSE 0
+\* |v*q1*q2 - p| < 2^-8   (rate = q1*q2 = file rate * time expansion)
+LCoarseRat(v, p, q1, q2) ==
+    /\ LFinite(v)
+    /\ LET m == LMulMag(LMulMag(v, q1), q2) IN
+       IF p = 0 THEN v[1] = 0 \/ (m[2] = 0 /\ m[3] < 256)
+       ELSE v[1] = 1 /\ \/ m[2] = p /\ m[3] < 256
+                        \/ m[2] = p - 1 /\ m[3] >= B16 - 256
+LongSamplesAt(c, red, off) ==
+    \A x \in DOMAIN red.samples :
+       LCoarseRat(red.samples[x][2], off + red.samples[x][1], c.fr, c.te[1])
+LongWithin(red) ==
+    red.n > 0 => /\ ~IsNone(red.step) /\ Some(red.step)[1] = 1
+                 /\ red.maxdev[1] \in {0, 1} /\ LMagLt(red.maxdev, Some(red.step))
 
 (***************************************************************************)
 (* An observed axis is the record                                          *)
@@ -202,7 +232,7 @@ SourceClauses == {"SourceUntouched/TimeIncreasing", "SourceUntouched/TimeStart",
 Reobs(r, role) == {x \in DOMAIN r.reobs : r.reobs[x].role = role}
 DriftClauses == {"Drift/SpecShape", "Drift/ResampleNum"}
 Clauses == {"Produced", "RecFrames",
-            "ClipLength", "ClipFrames", "ClipTimes", "ClipSameAsRecording", "ClipConsistent",
+            "ClipLength", "ClipFrames", "ClipTimes", "ClipSameAsRecording", "ClipConsistent", "RecTimes",
             "TimeIncreasing", "TimeStart", "TimeWithinStep",
             "FreqIncreasing", "FreqStart", "FreqWithinStep"} \cup SourceClauses \cup DriftClauses
 
@@ -211,21 +241,39 @@ Holds(cl, o) ==
         ok == r.raised = ""
         isclip == c.kind = "clip" /\ ok
         hasf == ok /\ Len(r.axes) >= 2
+        long == c.kind \in LongKinds
+        lclip == c.kind = "longclip" /\ ok
+        gen == ok /\ ~long                     \* arrays whose axes were encoded coordinate by coordinate
     IN
     CASE cl = "Produced"   -> MustProduceN(c, r.src_ok, r.src_n) => ok
       \* load_recording returns the file's frames (implied: the clip [0, N/sr] is the file's frames and equals the
       \* same frames of load_recording); bites in the history cases, where the file or an earlier result changed
-      [] cl = "RecFrames"  -> (c.kind = "rec" /\ ok) =>
-                                 /\ Len(r.rows) = c.N2
-                                 /\ \A i \in 1..Len(r.rows) : r.rows[i] = FileRow(i - 1, c.ch, c.N2, c.base2)
-      [] cl = "ClipLength" -> isclip => r.n \in AccLen(o) /\ Len(r.rows) = r.n
-      [] cl = "ClipFrames" -> isclip => \E off \in AccOff(o) : ClipFramesAt(o, off)
-      [] cl = "ClipTimes"  -> isclip => \E off \in AccOff(o) : ClipTimesAt(o, off)
+      [] cl = "RecFrames"  -> /\ (c.kind = "rec" /\ ok) =>
+                                    /\ Len(r.rows) = c.N2
+                                    /\ \A i \in 1..Len(r.rows) : r.rows[i] = FileRow(i - 1, c.ch, c.N2, c.base2)
+                              /\ (c.kind = "long" /\ ok) =>
+                                    /\ r.n = c.N /\ r.red.n = r.n
+                                    /\ \A x \in DOMAIN r.red.samples : r.red.samples[x][3] = LongVal(r.red.samples[x][1], c.N)
+      [] cl = "ClipLength" -> /\ isclip => r.n \in AccLen(o) /\ Len(r.rows) = r.n
+                              /\ lclip => r.n \in AccLen(o) /\ r.red.n = r.n
+      [] cl = "ClipFrames" -> /\ isclip => \E off \in AccOff(o) : ClipFramesAt(o, off)
+                              /\ lclip => \E off \in AccOff(o) : \A x \in DOMAIN r.red.samples :
+                                              r.red.samples[x][3] = LongVal(off + r.red.samples[x][1], c.N)
+      [] cl = "ClipTimes"  -> /\ isclip => \E off \in AccOff(o) : ClipTimesAt(o, off)
+                              /\ lclip => \E off \in AccOff(o) : LongSamplesAt(c, r.red, off)
+      \* the clip's frame i is "the same frame of load_recording" and carries (off+i)/sr, so load_recording's frame k
+      \* carries k/sr; judged on the sampled instants of long recordings only (2^-8 sample)
+      [] cl = "RecTimes"   -> (c.kind = "long" /\ ok) =>
+                                 LongSamplesAt(c, r.red, 0)
       [] cl = "ClipSameAsRecording" -> isclip => \E off \in AccOff(o) : ClipSameAt(o, off)
       [] cl = "ClipConsistent" -> isclip => \E off \in AccOff(o) : ClipFramesAt(o, off) /\ ClipTimesAt(o, off) /\ ClipSameAt(o, off)
-      [] cl = "TimeIncreasing" -> ok => AxisIncreasing(r.axes[1])
-      [] cl = "TimeWithinStep" -> ok => AxisWithin(r.axes[1])
-      [] cl = "TimeStart" -> ok => (IF c.kind = "rec" THEN StartsAtZero(r.axes[1])
+      [] cl = "TimeIncreasing" -> /\ gen => AxisIncreasing(r.axes[1])
+                                  /\ (long /\ ok) => r.red.nonincr = 0
+      [] cl = "TimeWithinStep" -> /\ gen => AxisWithin(r.axes[1])
+                                  /\ (long /\ ok) => LongWithin(r.red)
+      [] cl = "TimeStart" -> /\ (c.kind = "long" /\ ok) => (r.red.n > 0 => LIsZero(r.red.c0))
+                             /\ lclip => (r.red.n > 0 => \E off \in AccOff(o) : LCoarseRat(r.red.c0, off, c.fr, c.te[1]))
+                             /\ gen => (IF c.kind = "rec" THEN StartsAtZero(r.axes[1])
                                     ELSE IF c.kind = "clip"
                                          THEN r.axes[1].n > 0 => \E off \in AccOff(o) : TimeIs(r.axes[1].c0, off, Sr(c), ExactCo(c))
                                          ELSE StartsAtSource(r.axes[1], c))
